@@ -377,10 +377,19 @@ class AssignmentExpression(BinaryExpression):
         super().__init__(operation, left, right)
 
     def ResolveType(self, left, right):
-        self._operator = types.ExpressionType(
-            self.GetLeft().GetType(),
-            [self.GetLeft().GetType(), self.GetRight().GetType()],
-        )
+        leftType = self.GetLeft().GetType()
+        rightType = self.GetRight().GetType()
+
+        # The assigned value is converted to the type of the target if the
+        # two only differ in the component type
+        if (
+            leftType.IsPrimitive()
+            and rightType.IsPrimitive()
+            and types.IsCompatible(leftType, rightType)
+        ):
+            rightType = leftType
+
+        self._operator = types.ExpressionType(leftType, [leftType, rightType])
 
 
 class Affix:
@@ -569,6 +578,9 @@ class VariableDeclaration(Node):
     def GetInitializerExpression(self):
         return self.__initializer
 
+    def SetInitializerExpression(self, expression):
+        self.__initializer = expression
+
 
 class ArgumentModifier(Enum):
     Optional = 1
@@ -727,6 +739,9 @@ class ReturnStatement(FlowStatement):
 
     def GetExpression(self):
         return self.__expression
+
+    def SetExpression(self, expression):
+        self.__expression = expression
 
     def __str__(self):
         if self.__expression:
